@@ -178,3 +178,30 @@ Definition handed (recon : bool) (p : spod) : list ctr :=
 (* every container is visible in the declaration the pod-level hook sums over *)
 Definition complete (recon : bool) (p : spod) : bool :=
   if recon then forallb listed (map fst p) else forallb (fun x => isSome (snd x)) p.
+
+(* ---------- init containers ---------- *)
+
+(* An init container is a container of the pod: it gets the conversion of its own declared amounts
+   (clause 10) and the pod cgroup is never tighter than it (clause 11). It is NOT part of the
+   sums (init containers run before, not beside, the others). Judged after the main clauses. *)
+Definition init_holds (g : cfg) (H HI : list ctr) (pod : res) (ri : list res) : Prop :=
+  length ri = length HI
+  /\ (be g = false -> Forall (fun r => r = untouched) ri)
+  /\ (be g = true -> uses_batch (H ++ HI) = true ->
+        Forall2 (ctr_ok g) HI ri /\ Forall (pod_covers pod) ri).
+
+Definition init_code (g : cfg) (H HI : list ctr) (pod : res) (ri : list res) : Z :=
+  if negb (Nat.eqb (length ri) (length HI)) then 9
+  else if negb (be g) then (if forallb res_untouchedb ri then 0 else 1)
+  else if negb (uses_batch (H ++ HI)) then 0
+  else if negb (forallb2 (ctr_okb g) HI ri) then 10
+  else if negb (forallb (pod_coversb pod) ri) then 11
+  else 0.
+
+Definition prop_code_i (g : cfg) (H HI : list ctr) (o : obs) (ri : list res) : Z :=
+  let a := prop_code g H o in if a =? 0 then init_code g H HI (fst o) ri else a.
+
+(* D11: the main clauses hold, the pod has init containers and the failure concerns them only *)
+Definition d11_shape (g : cfg) (H HI : list ctr) (o : obs) (ri : list res) : bool :=
+  (prop_code g H o =? 0) && negb (init_code g H HI (fst o) ri =? 0)
+  && match HI with [] => false | _ => true end.
